@@ -89,12 +89,15 @@ def dropFront (b : Buf) (ndel : Nat) : Buf :=
   { b with mem := b.mem.drop ndel, pos := b.pos - ndel, base := b.base + ndel,
            memgen := if 0 < ndel ∧ ndel < b.n then b.memgen + 1 else b.memgen }
 
-/-- "Relocation, shift left to conserve memory": `none` = the anchor is beyond the cursor (C: `pos` goes negative) -/
+/-- "Relocation, shift left to conserve memory". Since b86a62d an anchor ahead of the cursor keeps everything from the
+    cursor on (`ndel = pos; anchor -= ndel`); before that fix `pos` went negative. The result is always `some` (the
+    `Option` is kept for the callers' `match`). -/
 def shiftLeft (b : Buf) : Option Buf :=
   if b.balloc - b.n < b.pagesize ∧ 0 < b.pos then
     match b.anchor with
     | none => some (dropFront b b.pos)
-    | some a => if a ≤ b.pos then some (dropFront { b with anchor := some 0 } a) else none
+    | some a => if a ≤ b.pos then some (dropFront { b with anchor := some 0 } a)
+                else some (dropFront { b with anchor := some (a - b.pos) } b.pos)
   else some b
 
 /-- `ESL_REALLOC(bf->mem, n + pagesize)` when the next page does not fit -/
@@ -146,8 +149,9 @@ def setStableAnchor (b : Buf) (offset : Nat) : St × Buf :=
       match b1.anchor with
       | none => (.fault, b1)            -- cannot happen: SetAnchor leaves an anchor
       | some a =>
+        -- ndel = ESL_MIN(anchor, pos); anchor -= ndel   (b86a62d; before, an anchor ahead of the cursor made pos negative)
         if a ≤ b1.pos then (.ok, dropFront { b1 with anchor := some 0 } a)
-        else (.fault, b1)               -- C: pos would go negative
+        else (.ok, dropFront { b1 with anchor := some (a - b1.pos) } b1.pos)
     | (st, b1) => (st, b1)
 
 /-! ## lines -/
@@ -404,7 +408,9 @@ def ffwdLoop (offset : Nat) : Nat → Buf → St × Buf
 
 def setOffset (b : Buf) (offset : Nat) : Out × Buf :=
   match b.mode with
-  | .allfile | .mmap | .string => ({ st := .ok }, { b with base := 0, pos := offset })
+  | .allfile | .mmap | .string =>
+    -- since 4515997: if (offset < 0 || offset > bf->n) ESL_EXCEPTION(eslEINVAL, ...)
+    if offset > b.n then ({ st := .einval }, b) else ({ st := .ok }, { b with base := 0, pos := offset })
   | _ =>
     if b.base ≤ offset ∧ offset < b.base + b.pos then ({ st := .ok }, { b with pos := offset - b.base })
     else if b.mode = .file ∧ b.anchor = none then
